@@ -24,13 +24,20 @@ RULE = ("cases = write scripts (write of any of the 12 integer types / &str / St
         "the values read are printed and compared with the Reader MODEL run on the Writer MODEL's sink bytes under the same delivery "
         "schedule (drv_writer, IoRT.readBack). Compared: sink contents "
         "(length + FNV-1a hash; hex when short) after every flush and after drop, the harness's own format!-oracle, values read "
-        "back; the number of write_all calls only as a raw (non-property) observation. non-trivial = distinct in-domain case whose "
+        "back; in the debug build additionally `ub`: after every operation the sink already holds everything written (flush-per-write). "
+        "Dedicated blocks: (2b) the tail is delivered by Drop alone (no flush after the last write) under every sink kind (accepts all / "
+        "partial / interrupting / both), (2c) a multi-byte piece ends exactly at fill level BUF and the next call is write_char (directly "
+        "or as Vec/tuple/out! separator or outln! newline). The number of write_all calls is NOT compared (when bytes reach the sink before "
+        "flush/drop is not promised): it is logged in coverage.flush_count_diagnostic only. non-trivial = distinct in-domain case whose "
         "final sink content is non-empty")
 ASSUMPTIONS = [
     "the Lean model of rlib_io::Writer is hand-written; it is tied to the code by running both on the same scripts in both profiles",
-    "std's Write::write_all (partial writes, Interrupted) is trusted: the model hands a whole slice to the sink per flush; "
-    "partial/interrupting sinks are exercised by the harness only",
+    "std's Write::write_all is trusted to be its documented loop: the model's flush hands a whole slice to the sink; that this loop "
+    "delivers the slice over every sink of the harness's family (at most k bytes per call, Interrupted every j-th call) is the "
+    "stand-alone theorem write_all_delivers; the real write_all over these sinks is exercised by the harness",
     "sink contents are compared as (length, 64-bit FNV-1a) pairs, plus the bytes themselves when at most 32",
+    "when bytes reach the sink before flush/drop is not constrained (write_all counts are a logged diagnostic only), except that the "
+    "debug build is checked to hold nothing pending after each operation (`ub` view)",
     "BUF_SIZE is read from writer.rs on every run; the theorems hold for every BUF_SIZE >= 39 and that side condition is evaluated",
 ]
 TRUSTED_EXTRA = ["std::io::Write::write_all"]
@@ -86,11 +93,11 @@ def extract(repo):
         problems.append("writer.rs: the buffer is no longer `[u8; Writer::BUF_SIZE]`")
     if len(re.findall(r"chunks\(\s*Writer::BUF_SIZE\s*\)", src)) != 2:
         problems.append("writer.rs: strings are no longer chunked by `Writer::BUF_SIZE` in both string instances")
-    # flush-per-write exactly under debug_assertions, in `write` and `write_char`
+    # flush-per-write under debug_assertions (`write`, `write_char`): a note only — the flushing policy is not part of the
+    # property (bytes after flush/drop are); the debug build's "nothing pending after an operation" is compared as the `ub` view.
     n_dbg = len(re.findall(r"#\[cfg\(debug_assertions\)\]\s*self\.flush\(\);", src))
     params["debug_flush_sites"] = n_dbg
-    if n_dbg != 2:
-        problems.append(f"writer.rs: expected 2 `#[cfg(debug_assertions)] self.flush();` sites (write, write_char), found {n_dbg}")
+    params["debug_flush_sites_note"] = "2 expected (write, write_char); informational, not a side condition"
     # BASE_10_LEN: the macro loop modelled by `base10len` and its use for every integer type
     npath = os.path.join(repo, "rlib", "num_traits", "src", "lib.rs")
     try:
@@ -117,6 +124,49 @@ def harness_args(params, profile):
 
 
 _DROP = re.compile(r"drop=(\d+):")
+_FL = re.compile(r" fl=(\d+) \|")
+
+
+def extra(ctx):
+    """Flush-count diagnostic, logged in the evidence and NEVER part of the verdict: a sample of the generated `w` lines is
+    re-run with `fl=1` in the header, which makes harness and driver append their number of write_all calls to the raw part."""
+    diag = {}
+    for pipe in ctx["pipes"]:
+        path = os.path.join(ctx["workdir"], f"cases.{pipe.profile}")
+        lines = []
+        try:
+            with open(path) as f:
+                for line in f:
+                    if line.startswith("w ") and " dbg=*" not in line and len(line) < 4000:
+                        lines.append(line.rstrip("\n").replace("w buf=", "w fl=1 buf=", 1))
+        except OSError:
+            continue
+        n = 1500 if ctx["tier"] == "thorough" else 300
+        step = max(1, len(lines) // n)
+        sample = lines[::step][:n]
+        d = {"sampled_cases": len(sample), "same_count": 0, "different_count": 0, "impl_write_all_calls": 0,
+             "model_write_all_calls": 0, "examples_of_difference": []}
+        try:
+            res = pipe.eval_cases(sample, "fldiag") if sample else []
+        except Exception as e:  # diagnostic only
+            d["error"] = str(e)[:200]
+            res = []
+        for r in res:
+            mi, mm = _FL.search(r["impl_line"] + " |"), _FL.search(r["model_line"])
+            if not mi or not mm:
+                continue
+            a, b = int(mi.group(1)), int(mm.group(1))
+            d["impl_write_all_calls"] += a
+            d["model_write_all_calls"] += b
+            if a == b:
+                d["same_count"] += 1
+            else:
+                d["different_count"] += 1
+                if len(d["examples_of_difference"]) < 3:
+                    d["examples_of_difference"].append({"case": r["case"][:300], "impl_fl": a, "model_fl": b})
+        diag[pipe.profile] = d
+    ctx["coverage"]["flush_count_diagnostic"] = dict(diag, note="not compared: the flushing policy before flush/drop is not part of C09")
+    return []
 
 
 def nontrivial(case, rec):
